@@ -23,16 +23,27 @@ package queue
 //@   modifies storeNow
 //@   ensures t != 0 && storeNow == t
 
+//@ spec
+//@ pred J0(s *MemoryStore) := s.items != nil && s.leases != nil
+//@ pred J1(s *MemoryStore) := forall id string :: id in s.items ==> s.items[id] != nil && s.items[id].ID == id
+//@ pred J2(s *MemoryStore) := forall id string :: !(id in s.items) ==> s.items[id] == nil
+//@ pred J3a(s *MemoryStore) := forall id string :: id in s.items && s.items[id].State == StateLeased ==> s.items[id].LeaseID != "" && s.items[id].LeaseID in s.leases && s.leases[s.items[id].LeaseID] == id
+//@ pred J3b(s *MemoryStore) := forall id string :: id in s.items && s.items[id].State != StateLeased ==> s.items[id].LeaseID == ""
+//@ pred J4(s *MemoryStore) := forall l string :: l in s.leases ==> s.leases[l] in s.items && s.items[s.leases[l]].State == StateLeased && s.items[s.leases[l]].LeaseID == l
+//@ pred J5(s *MemoryStore) := forall id string :: id in s.items ==> validState(s.items[id].State)
+//@ pred J6(s *MemoryStore) := forall id string :: id in s.items ==> s.items[id].Attempt >= 0
+//@ pred wf(s *MemoryStore) := J0(s) && J1(s) && J2(s) && J3a(s) && J3b(s) && J4(s) && J5(s) && J6(s)
+
 //@ type MemoryStore monitor mu
 //@   guards items, order, leases, attempts, trendRows, notify, lastPrune, evictionsTotalByReason, memoryPressureRejects
-//@   inv [J0] self.items != nil && self.leases != nil
-//@   inv [J1] forall id string :: id in self.items ==> self.items[id] != nil && self.items[id].ID == id
-//@   inv [J2] forall id string :: !(id in self.items) ==> self.items[id] == nil
-//@   inv [J3a] forall id string :: id in self.items && self.items[id].State == StateLeased ==> self.items[id].LeaseID != "" && self.items[id].LeaseID in self.leases && self.leases[self.items[id].LeaseID] == id
-//@   inv [J3b] forall id string :: id in self.items && self.items[id].State != StateLeased ==> self.items[id].LeaseID == ""
-//@   inv [J4] forall l string :: l in self.leases ==> self.leases[l] in self.items && self.items[self.leases[l]].State == StateLeased && self.items[self.leases[l]].LeaseID == l
-//@   inv [J5] forall id string :: id in self.items ==> validState(self.items[id].State)
-//@   inv [J6] forall id string :: id in self.items ==> self.items[id].Attempt >= 0
+//@   inv [J0] J0(self)
+//@   inv [J1] J1(self)
+//@   inv [J2] J2(self)
+//@   inv [J3a] J3a(self)
+//@   inv [J3b] J3b(self)
+//@   inv [J4] J4(self)
+//@   inv [J5] J5(self)
+//@   inv [J6] J6(self)
 
 //@ func (*MemoryStore).requeueLocked
 //@   monitor locked
@@ -41,6 +52,74 @@ package queue
 //@   ensures [released] env.State == StateQueued && env.LeaseID == "" && env.LeaseUntil == 0 && env.NextRunAt == now && env.DeadReason == ""
 //@   ensures [lease_removed] !(old(env.LeaseID) in s.leases)
 //@   ensures [other_leases] forall l string :: l != old(env.LeaseID) ==> ((l in s.leases) <==> old(l in s.leases)) && s.leases[l] == old(s.leases[l])
+
+//@ func (*MemoryStore).requeueExpiredLeasesLocked
+//@   monitor locked
+//@   requires s != nil && wf(s)
+//@   modifies s.leases, Envelope.State, Envelope.LeaseID, Envelope.LeaseUntil, Envelope.NextRunAt, Envelope.DeadReason
+//@   loop 1 invariant [wf_J3a] J3a(s)
+//@   loop 1 invariant [wf_J3b] J3b(s)
+//@   loop 1 invariant [wf_J4] J4(s)
+//@   loop 1 invariant [wf_J5] J5(s)
+//@   loop 1 invariant [each] forall id string :: id in s.items ==> same(s.items[id]) || (old(s.items[id].State == StateLeased && s.items[id].LeaseUntil != 0 && now >= s.items[id].LeaseUntil) && released(s.items[id], now))
+//@   loop 1 invariant [visited_done] forall l string :: l in visited && old(l in s.leases) && old(s.items[s.leases[l]].LeaseUntil != 0 && now >= s.items[s.leases[l]].LeaseUntil) ==> s.items[old(s.leases[l])].State == StateQueued
+//@   loop 1 invariant [leases_shrink] forall l string :: l in s.leases ==> old(l in s.leases) && s.leases[l] == old(s.leases[l])
+//@   loop 1 invariant [leases_kept] forall l string :: old(l in s.leases) && !(l in s.leases) ==> old(s.items[s.leases[l]].LeaseUntil != 0 && now >= s.items[s.leases[l]].LeaseUntil)
+//@   ensures [wf] wf(s)
+//@   ensures [each] forall id string :: id in s.items ==> same(s.items[id]) || (old(s.items[id].State == StateLeased && s.items[id].LeaseUntil != 0 && now >= s.items[id].LeaseUntil) && released(s.items[id], now))
+//@   ensures [C05:all_expired_released] forall id string :: id in s.items && old(s.items[id].State == StateLeased && s.items[id].LeaseUntil != 0 && now >= s.items[id].LeaseUntil) ==> s.items[id].State == StateQueued && s.items[id].NextRunAt == now
+//@   ensures [leases_shrink] forall l string :: l in s.leases ==> old(l in s.leases) && s.leases[l] == old(s.leases[l])
+//@   ensures [leases_kept] forall l string :: old(l in s.leases) && !(l in s.leases) ==> old(s.items[s.leases[l]].State == StateLeased && s.items[s.leases[l]].LeaseUntil != 0 && now >= s.items[s.leases[l]].LeaseUntil)
+
+//@ spec
+//@ pred expiredAt(e *Envelope, now time.Time) := e.State == StateLeased && e.LeaseUntil != 0 && now >= e.LeaseUntil
+//@ pred pruneEligible(s *MemoryStore, e *Envelope, now time.Time) := (e.State == StateQueued && s.retentionMaxAge > 0 && e.ReceivedAt != 0 && e.ReceivedAt <= now - s.retentionMaxAge) || (e.State == StateDead && ((s.dlqRetentionMaxAge > 0 && e.ReceivedAt != 0 && e.ReceivedAt <= now - s.dlqRetentionMaxAge) || s.dlqMaxDepth > 0)) || (e.State == StateDelivered && s.deliveredRetentionMaxAge > 0 && ((e.NextRunAt != 0 && e.NextRunAt <= now - s.deliveredRetentionMaxAge) || (e.NextRunAt == 0 && e.ReceivedAt != 0 && e.ReceivedAt <= now - s.deliveredRetentionMaxAge)))
+//@ pred dueFor(e *Envelope, route string, target string, now time.Time) := e.State == StateQueued && (route == "" || e.Route == route) && (target == "" || e.Target == target) && (e.NextRunAt == 0 || e.NextRunAt <= now)
+
+//@ func newHexID
+//@   trusted
+//@   ensures result != ""
+//@   ensures forall m map[string]string :: !(result in m)
+//@   ensures forall m map[string]*Envelope :: !(result in m)
+
+//@ func (*MemoryStore).maybePruneLocked
+//@   monitor locked
+//@   trusted
+//@   requires s != nil && wf(s)
+//@   modifies s.items, s.leases, s.lastPrune, s.evictionsTotalByReason
+//@   ensures [wf] wf(s)
+//@   ensures [kept] forall id string :: id in s.items ==> old(id in s.items) && s.items[id] == old(s.items[id])
+//@   ensures [only_eligible] forall id string :: old(id in s.items) && !(id in s.items) ==> old(pruneEligible(s, s.items[id], now))
+//@   ensures [leases_same] leasesSame(s)
+
+//@ func (*MemoryStore).compactOrderLocked
+//@   monitor locked
+//@   trusted
+//@   requires s != nil
+//@   modifies s.order
+
+//@ func (*MemoryStore).Dequeue
+//@   requires s != nil
+//@   modifies s.items, s.leases, s.lastPrune, s.evictionsTotalByReason, s.order, Envelope.State, Envelope.Attempt, Envelope.LeaseID, Envelope.LeaseUntil, Envelope.NextRunAt, Envelope.DeadReason, storeNow
+//@   loop 2 invariant [wf_J3a] J3a(s)
+//@   loop 2 invariant [wf_J3b] J3b(s)
+//@   loop 2 invariant [wf_J4] J4(s)
+//@   loop 2 invariant [wf_J5] J5(s)
+//@   loop 2 invariant [wf_J6] J6(s)
+//@   loop 2 invariant [cap] len(out) <= batch
+//@   loop 2 invariant [partition] forall id string :: id in s.items ==> presame(s.items[id]) || (pre(dueFor(s.items[id], req.Route, req.Target, now)) && s.items[id].State == StateLeased && s.items[id].Attempt == pre(s.items[id].Attempt) + 1 && s.items[id].LeaseUntil == now + leaseTTL && s.items[id].NextRunAt == now + leaseTTL && s.items[id].LeaseID != "" && (let lid := s.items[id].LeaseID :: !pre(lid in s.leases)) && presameExcept(s.items[id], State, Attempt, LeaseID, LeaseUntil, NextRunAt))
+//@   loop 2 invariant [leases_grow] forall l string :: pre(l in s.leases) ==> l in s.leases && s.leases[l] == pre(s.leases[l])
+//@   loop 2 invariant [out_items] forall k int :: 0 <= k && k < len(out) ==> let e := s.items[out[k].ID] :: out[k].ID in s.items && e.Attempt == pre(e.Attempt) + 1 && e.State == StateLeased && out[k].State == StateLeased && out[k].LeaseID == e.LeaseID && out[k].Attempt == e.Attempt && out[k].LeaseUntil == e.LeaseUntil && out[k].Payload == e.Payload && out[k].Headers == e.Headers && out[k].Route == e.Route && out[k].Target == e.Target
+//@   loop 2 invariant [out_distinct] forall j int, k int :: 0 <= j && j < k && k < len(out) ==> out[j].ID != out[k].ID
+//@   ensures [C05:batch_cap] len(result0.Items) <= min(max(req.Batch, 1), 100)
+//@   ensures [no_error] result1 == nil
+//@   ensures [C02:no_creation] forall id string :: id in s.items ==> old(id in s.items) && s.items[id] == old(s.items[id])
+//@   ensures [C02:removed_eligible] let now := ite(req.Now != 0, req.Now, storeNow) :: forall id string :: old(id in s.items) && !(id in s.items) ==> old(s.items[id].State) != StateCanceled && (old(s.items[id].State) != StateLeased || old(expiredAt(s.items[id], now)))
+//@   ensures [C02:transitions] let now := ite(req.Now != 0, req.Now, storeNow) :: forall id string :: id in s.items ==> let e := s.items[id] :: let lid := e.LeaseID :: same(e) || (old(expiredAt(e, now)) && released(e, now)) || (e.State == StateLeased && (old(e.State) == StateQueued || old(expiredAt(e, now))) && e.Attempt == old(e.Attempt) + 1 && immutableSame(e) && lid != "" && lid in s.leases && s.leases[lid] == id && (!old(lid in s.leases) || old(expiredAt(s.items[s.leases[lid]], now))))
+//@   ensures [C03:returned_leased] let now := ite(req.Now != 0, req.Now, storeNow) :: forall k int :: 0 <= k && k < len(result0.Items) ==> let id := result0.Items[k].ID :: let lid := result0.Items[k].LeaseID :: let att := result0.Items[k].Attempt :: let e := s.items[id] :: id in s.items && e.State == StateLeased && e.LeaseID == lid && lid != "" && lid in s.leases && s.leases[lid] == id && (!old(lid in s.leases) || old(expiredAt(s.items[s.leases[lid]], now))) && att == old(e.Attempt) + 1 && (old(e.State) == StateQueued || old(expiredAt(e, now))) && result0.Items[k].LeaseUntil == now + ite(req.LeaseTTL > 0, req.LeaseTTL, 30000000000)
+//@   ensures [C03:returned_were_ready] let now := ite(req.Now != 0, req.Now, storeNow) :: forall k int :: 0 <= k && k < len(result0.Items) ==> let id := result0.Items[k].ID :: let e := s.items[id] :: (req.Route == "" || result0.Items[k].Route == req.Route) && (req.Target == "" || result0.Items[k].Target == req.Target) && (old(expiredAt(e, now)) || old(e.NextRunAt) == 0 || old(e.NextRunAt) <= now)
+//@   ensures [C03:distinct] forall j int, k int :: 0 <= j && j < k && k < len(result0.Items) ==> result0.Items[j].ID != result0.Items[k].ID && result0.Items[j].LeaseID != result0.Items[k].LeaseID
+//@   ensures [C07:payload_as_stored] forall k int :: 0 <= k && k < len(result0.Items) ==> let id := result0.Items[k].ID :: let e := s.items[id] :: let p := result0.Items[k].Payload :: let h := result0.Items[k].Headers :: p == old(e.Payload) && h == old(e.Headers)
 
 //@ func (*MemoryStore).Ack
 //@   requires s != nil
